@@ -20,7 +20,7 @@ pub fn plan(prop: &str) -> Vec<PlanEntry> {
     let p = |family, weight| PlanEntry { family, weight };
     match prop {
         "C01" => vec![p("rc-mixed", 5), p("rc-weak", 2), p("rc-bulk", 1), p("dir-t4", 1), p("dir-t3", 2), p("dir-t1", 1), p("dir-t7", 1), p("dir-t8", 1), p("chain-weak", 1), p("client", 1), p("dir-t16", 1)],
-        "C02" => vec![p("rc-mixed", 3), p("rc-weak", 1), p("dir-t1", 3), p("dir-t2", 3), p("dir-t3", 1), p("dir-t5", 1), p("dir-t8", 2), p("dir-t9", 1), p("dir-t10", 1), p("dir-t14", 1), p("client", 2), p("dir-t16", 1)],
+        "C02" => vec![p("rc-mixed", 3), p("rc-weak", 1), p("dir-t1", 3), p("dir-t2", 3), p("dir-t3", 2), p("dir-t5", 1), p("dir-t8", 2), p("dir-t9", 1), p("dir-t10", 1), p("dir-t14", 1), p("client", 2), p("dir-t16", 1)],
         "C03" => vec![p("rc-weak", 4), p("rc-mixed", 1), p("dir-t4", 2), p("dir-t7", 3), p("dir-t8", 1), p("dir-t10", 1), p("dir-t14", 1)],
         "C04" => vec![p("rc-mixed", 3), p("rc-bulk", 2), p("rc-weak", 2), p("tls", 1), p("dir-t6", 1), p("dir-t7", 1), p("dir-t4", 1), p("dir-t3", 1), p("client", 1)],
         "C05" => vec![p("rc-weak", 8), p("dir-t3", 8), p("rc-mixed", 2), p("dir-t7", 2), p("dir-t2", 3), p("dir-t5", 3), p("dir-t14", 2), p("chain-weak", 1)],
@@ -30,7 +30,7 @@ pub fn plan(prop: &str) -> Vec<PlanEntry> {
         "C09" => vec![p("rc-wcells", 2), p("dir-w", 2)],
         "C10" => vec![p("rc-bulk", 5), p("dir-b", 1)],
         "C12" => vec![p("agesweep", 4), p("rc-mixed", 2), p("rc-bulk", 1), p("dir-t6", 2), p("dir-t9", 1)],
-        "C13" => vec![p("ebr", 3), p("ebr-churn", 2), p("ebr-longcs", 3), p("ebr-private", 1), p("rc-mixed", 1), p("dir-t9", 1), p("dir-t16", 1), p("chain-mid", 1)],
+        "C13" => vec![p("ebr", 3), p("ebr-churn", 2), p("ebr-longcs", 3), p("ebr-private", 1), p("rc-mixed", 1), p("dir-t9", 1), p("dir-t16", 1), p("chain-mid", 1), p("dir-t2", 1)],
         "C14" => vec![p("ebr", 2), p("ebr-churn", 3), p("ebr-longcs", 2), p("dir-t12", 2), p("guards", 1), p("rc-mixed", 1), p("rc-bulk", 1), p("dir-t6", 1)],
         "C15" => vec![p("ebr", 3), p("ebr-churn", 2), p("ebr-private", 2), p("tls", 1), p("dir-t13", 1)],
         "C16" => vec![p("guards", 4), p("ebr", 1), p("ebr-longcs", 2), p("rc-mixed", 1), p("dir-t6", 1), p("dir-t8", 1), p("dir-t12", 1), p("dir-t17", 1)],
